@@ -246,3 +246,39 @@ fn c09_verify_tree_arbitrary() {
     std::mem::forget(r);
     std::mem::forget(cs);
 }
+
+/// verify_upgrade with an upgrade that carries no nodes (the cheapest structurally arbitrary
+/// upgrade): start/length below 2^40 on an empty replica.  Reaches the zero-length case.
+#[kani::proof]
+#[kani::stub(std::fmt::format, stub_format)]
+fn c09_verify_upgrade_no_nodes() {
+    let t = empty_tree();
+    let mut cs = t.changeset();
+    let sig: [u8; 64] = kani::any();
+    let upgrade = DataUpgrade { start: kani::any(), length: kani::any(), nodes: vec![], additional_nodes: vec![], signature: sig.to_vec() };
+    kani::assume(lt40(upgrade.start) && lt40(upgrade.length));
+    let pk = signing_key().verifying_key();
+    let r = verify_upgrade(0, &upgrade, None, &pk, &mut cs);
+    kani::cover!(r.is_err(), "refused");
+    kani::cover!(true, "reached end");
+    std::mem::forget(r);
+    std::mem::forget(cs);
+}
+
+/// create_valueless_proof on the 3-block tree for a block request combined with an upgrade whose
+/// target may lie below the requested block (small symbolic ranges: block 0..2, upgrade to 1..3).
+#[kani::proof]
+#[kani::stub(std::fmt::format, stub_format)]
+fn c09_req_block_vs_upgrade_target() {
+    let mut t = literal_tree3();
+    let bi: u8 = kani::any();
+    let ul: u8 = kani::any();
+    kani::assume(bi < 3 && ul >= 1 && ul <= 3);
+    let b = RequestBlock { index: bi as u64, nodes: 0 };
+    let u = RequestUpgrade { start: 0, length: ul as u64 };
+    let r = t.create_valueless_proof(Some(&b), None, None, Some(&u), None);
+    kani::cover!(r.is_ok(), "served");
+    kani::cover!(true, "reached end");
+    std::mem::forget(r);
+    std::mem::forget(t);
+}
